@@ -190,10 +190,10 @@ def sweep_decode(ctx):
 def tasks(tier, seed):
     full = tier == 'thorough'
     t = [('sweep_mask', {}), ('sweep_decode', {})]
-    for i in range(2 if not full else 6):
-        t.append(('hyp_mask', dict(n=400 if not full else 3000)))
-    for i in range(6 if not full else 10):
-        t.append(('hyp_decode', dict(n=200 if not full else 2500)))
+    for i in range(4 if not full else 6):
+        t.append(('hyp_mask', dict(n=600 if not full else 3000)))
+    for i in range(10):
+        t.append(('hyp_decode', dict(n=400 if not full else 2500)))
     return t
 
 
